@@ -1,39 +1,150 @@
 """C02 - fault-tolerant midpoint and median stay within the correct values."""
+import random, re
+from concurrent.futures import ThreadPoolExecutor
+
 import vlib
+
+SELFTESTS = [("MidpointConc_shared.cfg", "CContain"), ("MidpointConc_sharedrace.cfg", "CRaceFree"),
+             ("MidpointConc_sharedpanic.cfg", "CReturns"), ("MidpointConc_overlap.cfg", "NoOverlap")]
+UNDER_TEST = ("example.com/scion-time/base/timemath.", "example.com/scion-time/core/measurements.")
+
+
+class _Jobs:
+    """Independent TLC jobs run side by side, each in a private copy of the spec
+    directory, in the order given; tr[key] waits for that job's result (the
+    exhaustive runs go on while the drivers replay the generated cases)."""
+
+    def __init__(self, ctx, jobs):
+        ctx.specdir()
+        self.ex = ThreadPoolExecutor(max_workers=4)
+        self.fut = {}
+        for key, module, cfg, kw in jobs:
+            self.fut[key] = self.ex.submit(ctx.tlc, module, cfg, specdir=ctx.private_specdir(), **kw)
+
+    def __getitem__(self, key):
+        return self.fut[key].result()
+
+    def close(self):
+        self.ex.shutdown(wait=True, cancel_futures=True)
+
+
+def _race_reports(out):
+    """Race detector reports -> list of dicts(fns=[frame of the code under test in
+    each access stack or None], driver_block=bool, text)."""
+    res = []
+    for blk in re.findall(r"WARNING: DATA RACE\n(.*?)\n==================", out, re.S):
+        secs = re.split(r"\n\s*\n", blk)
+        acc = [s for s in secs if re.match(r"\s*(Previous )?(read|write|atomic read|atomic write) at ", s, re.I)]
+        fns = []
+        for s in acc:
+            m = [f for f in re.findall(r"^\s+(\S+)\(\)\s*$", s, re.M) if f.startswith(UNDER_TEST)]
+            fns.append(m[0] if m else None)
+        loc = [s for s in secs if s.lstrip().startswith("Location is heap block")]
+        driver_block = bool(loc) and not any(f.startswith(UNDER_TEST)
+                                             for f in re.findall(r"^\s+(\S+)\(\)\s*$", loc[0], re.M))
+        res.append(dict(fns=fns, driver_block=driver_block, text=blk[:3000]))
+    return res
 
 
 def run(ctx):
     q = ctx.quick
-    # 1. design level: the property section of Midpoint.tla, exhaustively
-    r = ctx.tlc("MidpointMC", "Midpoint_exh.cfg" if q else "Midpoint_deep.cfg", timeout=900)
-    ctx.log("TLC exhaustive: %d distinct states" % r["distinct"])
-    # 2. spec -> code: TLC enumerates the inputs with the spec's results
-    g = ctx.tlc("MidpointMC", "Midpoint_gen.cfg" if q else "Midpoint_gendeep.cfg", workers=1, timeout=900, tag="gen")
-    cases = ctx.emitted(g["out"])
+    # 1. design level, exhaustively: the property section of Midpoint.tla (one
+    #    call), of MidpointConc.tla (k concurrent callers, all interleavings),
+    #    the self-tests of MidpointConc (shared scratch buffer: TLC must find each
+    #    clause violated; two calls do overlap), and the generators
+    jobs = [("gen", "MidpointMC", "Midpoint_gen.cfg" if q else "Midpoint_gendeep.cfg",
+             dict(workers=1, timeout=900, tag="gen")),
+            ("gen2", "MidpointConcMC", "MidpointConc_gen.cfg", dict(workers=1, timeout=900, tag="gen")),
+            ("gen3", "MidpointConcMC", "MidpointConc_gen3.cfg" if q else "MidpointConc_gendeep3.cfg",
+             dict(workers=1, timeout=900, tag="gen")),
+            ("seq", "MidpointMC", "Midpoint_exh.cfg" if q else "Midpoint_deep.cfg", dict(timeout=900, workers=4)),
+            ("conc2", "MidpointConcMC", "MidpointConc_exh.cfg" if q else "MidpointConc_deep.cfg",
+             dict(timeout=900, workers=4)),
+            ("conc3", "MidpointConcMC", "MidpointConc_exh3.cfg" if q else "MidpointConc_deep3.cfg",
+             dict(timeout=900, workers=4))]
+    for cfg, inv in SELFTESTS:
+        jobs.append((cfg, "MidpointConcMC", cfg, dict(workers=2, timeout=300, allow_violation=True, tag="selftest")))
+    tr = _Jobs(ctx, jobs)
+    try:
+        _run(ctx, tr)
+    finally:
+        tr.close()
+
+
+def _run(ctx, tr):
+    q = ctx.quick
+    # 2. spec -> code: TLC enumerates the inputs with the spec's results ...
+    cases = ctx.emitted(tr["gen"]["out"])
     if len(cases) < 1000:
         raise vlib.Inconclusive("case generator produced only %d cases" % len(cases))
     cp = ctx.path("cases.ndjson")
     vlib.write_ndjson(cp, cases)
+    # ... and the concurrent rounds (callers' inputs in disjoint bands, variants, operations)
+    r2, r3 = ctx.emitted(tr["gen2"]["out"]), ctx.emitted(tr["gen3"]["out"])
+    if len(r2) < 1000 or len(r3) < 1000:
+        raise vlib.Inconclusive("round generator produced only %d + %d rounds" % (len(r2), len(r3)))
+    rnd = random.Random(ctx.seed)
+    rounds = rnd.sample(r2, 240 if q else 1500) + rnd.sample(r3, 80 if q else 800)
+    rnd.shuffle(rounds)
+    same_fn = sum(1 for r in rounds if len({(c["v"], c["op"]) for c in r["callers"]}) < len(r["callers"]))
+    with_far = sum(1 for r in rounds if any(abs(v) == 15 for c in r["callers"] for v in c["s"]))
+    if same_fn < 10:
+        raise vlib.Inconclusive("only %d sampled rounds have two callers in the same function" % same_fn)
+    rp = ctx.path("rounds.ndjson")
+    vlib.write_ndjson(rp, rounds)
     # 3. real code under embeddings and input orders
-    trace, out = ctx.godriver("c02", "TestC02", cases=cp)
+    trace, out = ctx.godriver("c02", "TestC02$", cases=cp)
     recs = vlib.read_ndjson(trace)
     ctx.log("driver: %d records from %d cases" % (len(recs), len(cases)))
+    # 3b. real code, k goroutines released together, back-to-back calls
+    reps = 4000 if q else 6000
+    ctrace, cout = ctx.godriver("c02", "TestC02Conc$", cases=rp, out_name="conc.ndjson", env={"C02_REPS": str(reps)},
+                                extra=("-v",))
+    crecs = vlib.read_ndjson(ctrace)
+    m = re.search(r"C02CONC rounds=(\d+) calls=(\d+) records=(\d+) inexact-skips=(\d+) rounds-overlapped=(\d+)", cout)
+    if not m:
+        raise vlib.Inconclusive("concurrent driver printed no summary:\n" + cout[-2000:])
+    nrounds, ncalls, ncrec, nskip, nover = map(int, m.groups())
+    ctx.log("concurrent driver: %d rounds, %d calls, %d distinct records, %d rounds with overlapping callers"
+            % (nrounds, ncalls, ncrec, nover))
+    if nover < nrounds * 0.9:
+        raise vlib.Inconclusive("callers overlapped in only %d of %d concurrent rounds" % (nover, nrounds))
+    # 3c. the same rounds under the race detector (fewer, shorter)
+    races, race_note = _race(ctx, rounds[:60 if q else 400], soft=q)
+    ctx.log(race_note)
+    for cfg, inv in SELFTESTS:
+        if tr[cfg]["violated"] != inv:
+            raise vlib.Inconclusive("self-test of MidpointConc.tla: TLC did not find %s violated in %s (found: %s); "
+                                    "the concurrent model has no teeth" % (inv, cfg, tr[cfg]["violated"]))
     # 4. code -> spec: monitor decides, strict reports drift
     nval = 0
     chunk = 60000
+    parts = [recs[i:i + chunk] for i in range(0, len(recs), chunk)]
+    parts += [crecs[i:i + chunk] for i in range(0, len(crecs), chunk)]
+    if races:
+        parts.append(races)
     paths = []
-    for i in range(0, len(recs), chunk):
-        pp = ctx.path("chunk%d.ndjson" % (i // chunk))
-        vlib.write_ndjson(pp, recs[i:i + chunk])
+    for i, part in enumerate(parts):
+        pp = ctx.path("chunk%d.ndjson" % i)
+        vlib.write_ndjson(pp, part)
         paths.append(pp)
     res = ctx.validate_parallel("MidpointTrace", "MidpointTrace_mon.cfg", paths, jobs=4)
     clean = []
     for k, (ok, l, inv, tout) in enumerate(res):
-        part = recs[k * chunk:(k + 1) * chunk]
+        part = parts[k]
         if not ok:
             bad = part[l - 1] if l else None
-            ctx.violation("C02 %s %s" % (inv, bad["k"] if bad else "?"),
-                          "real %s result violates %s: %s" % (bad["k"] if bad else "?", inv, bad), bad)
+            kind = bad["k"] if bad else "?"
+            if kind == "race":
+                ctx.violation("C02 %s %s" % (inv, bad["fn"]),
+                              "race detector: two concurrent calls on disjoint inputs touch the same memory "
+                              "(%s / %s)" % (bad["fn"], bad["fn2"]), bad)
+                continue
+            conc = bool(bad and bad.get("conc"))
+            ctx.violation("C02 %s %s%s" % (inv, kind, " concurrent" if conc else ""),
+                          "real %s result%s violates %s: %s"
+                          % (kind, " of a call made while other goroutines were calling on their own inputs"
+                             if conc else "", inv, bad), bad)
             continue
         nval += len(part)
         clean.append((k, paths[k]))
@@ -41,15 +152,65 @@ def run(ctx):
         sres = ctx.validate_parallel("MidpointTrace", "MidpointTrace_strict.cfg", [p for _, p in clean], jobs=4)
         for (k, _), (ok, l, inv, tout) in zip(clean, sres):
             if not ok:
-                part = recs[k * chunk:(k + 1) * chunk]
+                part = parts[k]
                 ctx.drift.append("record %s differs from Midpoint.tla (%s)" % (part[l - 1] if l else "?", inv))
-    distinct = len({(x["k"], tuple(x["s"]), x["emb"]) for x in recs})
+    ctx.log("TLC exhaustive: %d distinct states (one call), %d + %d (2 and 3 concurrent callers, all interleavings)"
+            % (tr["seq"]["distinct"], tr["conc2"]["distinct"], tr["conc3"]["distinct"]))
+    allrecs = recs + crecs
+    distinct = len({(x["k"], tuple(x["s"]), x["emb"]) for x in allrecs})
     ctx.cov.update(
-        evaluations=len(recs), distinct_nontrivial=distinct,
+        evaluations=len(recs) + ncalls, distinct_nontrivial=distinct,
         rule="every sequence over the config's value set with length 1..MaxN (TLC-enumerated, exhaustive) x "
              "value embeddings a*v+b up to +-(2^62-1) x input orders (identity, reverse, seeded permutations); "
-             "distinct = distinct (variant, ordered input, embedding)",
+             "plus concurrent rounds: a seeded sample of all (callers' input multisets in disjoint bands with <= f "
+             "arbitrary values, variant, operation) combinations for 2 and 3 callers, each replayed from k "
+             "goroutines released together, every call recorded (equal outcomes of one caller and order merged "
+             "with a count); distinct = distinct (variant, ordered input, embedding)",
         traces_validated_against_impl=nval, exhaustive=True,
-        samples=recs[:2] + recs[len(recs) // 2:len(recs) // 2 + 2] + recs[-2:])
+        samples=recs[:2] + recs[len(recs) // 2:len(recs) // 2 + 1] + crecs[:1] + crecs[-2:])
+    ctx.notes += [
+        "concurrent callers (spec/MidpointConc.tla): TLC explored all interleavings of 2 callers (%d states) and 3 "
+        "callers (%d states); self-tests with ONE shared scratch buffer: TLC found CContain, CRaceFree and CReturns "
+        "violated and two calls in progress at once reachable" % (tr["conc2"]["distinct"], tr["conc3"]["distinct"]),
+        "generated rounds: %d with 2 callers, %d with 3 callers; replayed %d (seeded sample), of which %d have two "
+        "callers in the same function and %d hold arbitrary (faulty) values; %d calls in %d rounds, %d rounds with "
+        "all callers calling at the same time; %d distinct records judged by the clauses of MidpointTrace, "
+        "%d calls not expressible in model units (not judged)"
+        % (len(r2), len(r3), len(rounds), same_fn, with_far, ncalls, nrounds, nover, len(crecs), nskip),
+        race_note]
     ctx.assumptions += ["affine embeddings commute with sort/midpoint (inexact inverse images are skipped, never judged)",
-                        "small-scope: n <= 5 (quick) / 7-8 (thorough) over 5-7 model values"]
+                        "small-scope: n <= 5 (quick) / 7-8 (thorough) over 5-7 model values",
+                        "concurrent rounds: the schedule of the goroutines is the Go runtime's (many repetitions, no "
+                        "control over the interleaving); all interleavings are explored on the specification only"]
+
+
+def _race(ctx, rounds, soft):
+    """Concurrent driver built with -race. Returns (race records, note)."""
+    rp = ctx.path("rounds_race.ndjson")
+    vlib.write_ndjson(rp, rounds)
+    try:
+        rc, out = ctx.gotest("c02", "TestC02Conc$", race=True, timeout=240 if soft else 900,
+                             env={"C02_REPS": "300", "VERIF_IN": rp, "VERIF_OUT": ctx.path("conc_race.ndjson")})
+    except vlib.Inconclusive:
+        if soft:
+            return [], ("race detector: build not finished within 240 s (cold build cache); "
+                        "left to the thorough tier")
+        raise
+    reps = _race_reports(out)
+    if not reps:
+        if rc != 0:
+            raise vlib.Inconclusive("go driver c02 (race) failed (rc=%d):\n%s" % (rc, "\n".join(out.splitlines()[-60:])))
+        return [], "race detector: %d concurrent rounds, no report" % len(rounds)
+    mine = [r for r in reps if len(r["fns"]) >= 2 and all(r["fns"][:2]) and not r["driver_block"]]
+    if not mine:
+        raise vlib.Inconclusive("race detector reports a race that is not between two calls of the functions under "
+                                "test (driver defect?):\n" + reps[0]["text"])
+    seen, recs = set(), []
+    for r in mine:
+        key = tuple(sorted(r["fns"][:2]))
+        if key in seen:
+            continue
+        seen.add(key)
+        short = [f.replace("example.com/scion-time/", "").split("/")[-1] for f in key]
+        recs.append(dict(k="race", s=[], fn=short[0], fn2=short[1], report=r["text"][:1500]))
+    return recs, "race detector: %d concurrent rounds, %d reports inside the functions under test" % (len(rounds), len(mine))
